@@ -246,11 +246,15 @@ func c02ManagerFaults(ev *vlib.Evidence, driver string, s store.Store, n int) {
 			}
 			continue
 		}
-		// every peer got exactly the credit or nothing; hosts never pay
-		for _, p := range peers {
+		// every peer got exactly the credit, except the one whose credit call was failed; hosts never pay
+		for pi, p := range peers {
 			d := deltas[string(p.ID)]
-			if d.Sign() != 0 && d.Cmp(credit) != 0 {
-				ev.Violate("fault:"+driver+":peer-delta-not-credit-or-zero", detail())
+			failedPeer := failOp == "AddNodeBalance" && failN == pi+1
+			if failedPeer && d.Sign() == 0 {
+				continue
+			}
+			if d.Cmp(credit) != 0 {
+				ev.Violate("fault:"+driver+":peer-not-credited-although-its-credit-did-not-fail", detail())
 				break
 			}
 		}
